@@ -67,6 +67,9 @@ func (x xfsEngine) Generate(rng *rand.Rand, prop string, thorough bool) *Plan {
 	// than the initial mapping (a record is at most 512 MiB + 64 KiB, the mapping at least 1 GiB). The knob keeps
 	// that precondition: it is never set below the largest record of the run (see the sizes below).
 	cfg.MmapInit = []int64{0, 1024, 2048, 4096, 8192, 65536}[rng.Intn(6)]
+	if x.focus == "C16" {
+		cfg.MmapInit = 1024 // raised below to the largest record: records of up to one whole mapping
+	}
 	p := &Plan{Property: prop, Engine: "xfs", Cfg: cfg}
 	keys := GenKeys(rng, KeyFamily(cfg.Family), cfg.NKeys, cfg.HashSeed)
 	p.Cfg.NKeys = len(keys)
@@ -83,7 +86,9 @@ func (x xfsEngine) Generate(rng *rand.Rand, prop string, thorough bool) *Plan {
 	if thorough {
 		g.MaxOps = 200
 	}
-	if cfg.MmapInit > 0 && cfg.MmapInit < 8192 && rng.Intn(2) == 0 {
+	if x.focus == "C16" {
+		g.Sizes = [][]int{{0, 1, 200, 490, 900}, {0, 16, 900, 1900, 2040}, {1, 60, 2000, 3900, 4080}, {0, 506, 4090, 8000, 16000}}[rng.Intn(4)]
+	} else if cfg.MmapInit > 0 && cfg.MmapInit < 8192 && rng.Intn(2) == 0 {
 		g.Sizes = []int{0, 1, 8, 16, 60, 200, 490} // small records: the small mapping settings stay admissible
 	}
 	id := 0
@@ -774,6 +779,10 @@ func (x xfsEngine) targets(p *Plan) ([]xfsTarget, func()) {
 			}
 		case "C15":
 			if !t.real {
+				continue
+			}
+		case "C16":
+			if t.name != "simfs" && t.name != "osmmap" {
 				continue
 			}
 		}
